@@ -10,6 +10,6 @@ AllOps == {"Register", "DropObject", "SetDefaultUnitRemoved", "SetTemplate", "Ad
            "GetCategoryDefaultUnit", "GetCurrentId", "GetUnitSystemById", "GetQuantityDefaultUnit", "ConvertToCurrent", "ConvertScalarToCurrent"}
 OpsDef == IF IOEnv.OPS = "mut" THEN {"Register", "DropObject", "SetDefaultUnitRemoved", "SetTemplate", "AddUnitSystem", "RemoveUnitSystem", "SetCurrent", "SetDefaultUnit", "RemoveCategory"}
           ELSE AllOps
-TypeDef == [x \in {"length", "depth", "time", "m", "cm", "s", "min"} |-> IF x \in {"length", "depth", "m", "cm"} THEN "length" ELSE "time"]
-FactorDef == [u \in {"m", "cm", "s", "min"} |-> CASE u = "m" -> <<1, 1>> [] u = "cm" -> <<1, 100>> [] u = "s" -> <<1, 1>> [] u = "min" -> <<60, 1>>]
+TypeDef == [x \in {"length", "depth", "time", "m", "cm", "km", "s", "min"} |-> IF x \in {"length", "depth", "m", "cm", "km"} THEN "length" ELSE "time"]
+FactorDef == [u \in {"m", "cm", "km", "s", "min"} |-> CASE u = "m" -> <<1, 1>> [] u = "cm" -> <<1, 100>> [] u = "km" -> <<1000, 1>> [] u = "s" -> <<1, 1>> [] u = "min" -> <<60, 1>>]
 =============================================================================
